@@ -56,7 +56,7 @@ PROPS = {
     'C18': dict(custom='c18_check'),
     'C07': dict(workload='C07', oracle=['C07'], project=proj_accept,
                 quick=['std-lax', 'std-strict', 'nostd-lax'], thorough=list(CONFIGS)),
-    'C08': dict(workload='C08', oracle=['C08'], project=proj_identity,
+    'C08': dict(workload='C08', oracle=['C08'], project=proj_identity, derive_accept=True,
                 quick=['std-lax'], thorough=['std-lax', 'nostd-lax']),
     'C09': dict(workload='C09', oracle=['C09'], project=proj_identity, spec_ops=('contchk',),
                 quick=['std-lax'], thorough=['std-lax', 'std-strict', 'nostd-lax']),
@@ -141,6 +141,7 @@ def c18_check(pid, tier, seed):
                     stats['disagreements'] += 1
                     violations.append((cfg, c, detail, 'correspondence-broken'))
         shutil.rmtree(work, ignore_errors=True)
+        derive_accept_step(pid, stats, violations, build_errors, known, knowns)
     stats['per_cfg'][cfg] = dict(cases=stats['evaluations'], disagreements=stats['disagreements'],
                                  oracle_failures=stats['oracle_failures'])
     return finish(pid, tier, seed, dict(workload='derive'), proof, stats, distinct, samples, [cfg], t0, violations,
@@ -165,8 +166,12 @@ def run(cmd, cwd=None, env=None, timeout=None):
     e.update({'CARGO_NET_OFFLINE': 'true'})
     if env:
         e.update(env)
-    p = subprocess.run(cmd, cwd=cwd, env=e, stdout=subprocess.PIPE, stderr=subprocess.STDOUT,
-                       text=True, timeout=timeout)
+    try:
+        p = subprocess.run(cmd, cwd=cwd, env=e, stdout=subprocess.PIPE, stderr=subprocess.STDOUT,
+                           text=True, timeout=timeout)
+    except subprocess.TimeoutExpired as ex:
+        out = ex.stdout.decode(errors='replace') if isinstance(ex.stdout, bytes) else (ex.stdout or '')
+        return 124, out + '\n[timed out after %s s]' % timeout
     return p.returncode, p.stdout
 
 def log(msg):
@@ -294,7 +299,8 @@ def run_workload(pid, cfg, binpath, workload, seed, tier, extra_env=None, tag=''
         os.remove(os.path.join(outdir, 'current.txt'))
     except FileNotFoundError:
         pass
-    rc, out = run([binpath, workload, str(seed), tier, outdir], env=extra_env)
+    # a whole workload that does not finish is a failure of the run, not a reason to wait for ever
+    rc, out = run([binpath, workload, str(seed), tier, outdir], env=extra_env, timeout=(5400 if tier == 'thorough' else 1500))
     if rc != 0:
         cur = os.path.join(outdir, 'current.txt')
         aborted = open(cur).read().strip() if os.path.exists(cur) else None
@@ -526,10 +532,52 @@ def run_check(pid, tier, only_cfgs=None, quiet=False):
                         stats['oracle_failures'] += 1
                 stats['raw_message_cases_compared'] = stats.get('raw_message_cases_compared', 0) + nraw
                 stats['oracle_checks'] += nraw
+    if spec.get('derive_accept') and 'std-lax' in cfgs and builds['std-lax'][0] == 0:
+        derive_accept_step(pid, stats, violations, build_errors, known, knowns)
     if spec.get('miri'):
         miri_step(pid, stats, violations, build_errors)
     return finish(pid, tier, seed, spec, proof, stats, distinct, samples, cfgs, t0, violations, knowns, build_errors,
                   builds=builds, known=known)
+
+def derive_accept_step(pid, stats, violations, build_errors, known, knowns):
+    """C08 (last sentence) / C18 (last sentence): generic structs and enums - type parameters behind
+    PhantomData or an associated type, lifetimes a variant does not use, const parameters, where clauses -
+    compiled once with the serialization derives only and once with the schema derive added; whatever
+    the first accepts the second has to accept.  rustc against the library cargo built from /repo."""
+    import c18, shutil
+    cfg = 'std-lax'
+    work = os.path.join(BUILD, 'c18', 'generic-%s-%d' % (pid, os.getpid()))
+    ctrls = c18.generic_controls()
+    items = []
+    for label, ser_only, with_schema in ctrls:
+        items.append((ser_only, 'accept', label))
+        items.append((with_schema, 'accept', label))
+    try:
+        res = c18.compile_all(items, os.path.join(BUILD, 'target-' + cfg, 'debug', 'deps'), work)
+    except Exception as e:
+        build_errors.append((cfg, 'generic derive controls: %s' % e))
+        return
+    finally:
+        shutil.rmtree(work, ignore_errors=True)
+    stats['generic_derive_items'] = len(ctrls)
+    for i, (label, ser_only, with_schema) in enumerate(ctrls):
+        (o1, d1), (o2, d2) = res[2 * i], res[2 * i + 1]
+        stats['oracle_checks'] += 1
+        case = 'derive-generic %s :: %s' % (label, ser_only.body)
+        bad = None
+        if o1 != 'accept':
+            # the serialization derives themselves refuse a documented shape (C18's last sentence)
+            if pid == 'C18':
+                bad = 'BorshSerialize / BorshDeserialize do not compile for this item: %s' % d1
+        elif o2 != 'accept':
+            bad = 'the serialization derives accept this item, adding BorshSchema does not compile: %s' % d2
+        if bad:
+            stats['oracle_failures'] += 1
+            k = known_match(known, pid, cfg, case, bad)
+            if k:
+                knowns.setdefault(k['id'], [k, 0])[1] += 1
+            else:
+                violations.append((cfg, case, bad, 'impl-violates-property'))
 
 def miri_step(pid, stats, violations, build_errors):
     """C15: the real `[T; N]` decoder under Miri (every N in a list, every failure position, error and
